@@ -131,7 +131,8 @@ def evaluate(case, out):
             contests = {f"row {i}": con for i, con in enumerate(contests.values())}
             out.cls("contests-keyed-by-something-else-than-their-id")
         by_id = {con.id: con for con in contests.values()}
-        cvrs = [CVR(id=f"r{i}", votes={c: {"A": 1} for c in style}) for i, style in enumerate(case["cards"])]
+        # (a card may list a contest without any mark in it - an undervote: it lists the contest all the same)
+        cvrs = [CVR(id=f"r{i}", votes={c: ({} if (i + k) % 3 == 0 else {"A": 1}) for k, c in enumerate(style)}) for i, style in enumerate(case["cards"])]
         before = [(c, copy.deepcopy(c.votes)) for c in cvrs]
         counts = {c: sum(1 for s in case["cards"] if c in s) for c in cids}
         bound = {c: (case["contests"][c] if (case["contests"][c] is not None and us) else case["max_cards"]) for c in cids}
